@@ -269,6 +269,7 @@ func c08RunHistory(run *vfRun, base string, c c08Case) {
 	}
 	cfg := Config{Timeout: time.Minute, TimeBetweenDKGPhases: c08Phase, KickoffGracePeriod: c08Kickoff}
 	nw := vfdNewNet(dir, c.BeaconID, sch, cfg, c.Seed)
+	nw.startLagMonitor()
 	h := &c08H{run: run, c: c, net: nw, rng: vfNewRng(c.Seed ^ 0xc08)}
 	nw.onPanic = func(what, dst, val, where, stack string) {
 		if len(stack) > 2500 {
@@ -757,6 +758,22 @@ func (h *c08H) execute(p *c08Proposal, drop bool) {
 	cls := "valid"
 	if drop {
 		cls = "all-bundles-lost"
+	} else if parts := p.participants(); len(parts) >= 3 && h.rng.Chance(25) {
+		// some participants deal and then fall silent (their response bundles are lost, as after a crash)
+		k := h.rng.Range(1, len(parts)-1)
+		df := map[string]string{}
+		for _, nd := range vfdShuffled(h.rng, parts)[:k] {
+			df[nd.addr] = "resp"
+		}
+		h.net.mu.Lock()
+		h.net.dropFrom = df
+		h.net.mu.Unlock()
+		cls = fmt.Sprintf("responses-of-%d-of-%d-lost", k, len(parts))
+		defer func() {
+			h.net.mu.Lock()
+			h.net.dropFrom = nil
+			h.net.mu.Unlock()
+		}()
 	}
 	err := h.step(c08Opt{kind: "cmd-execute", class: cls, actor: p.leader, target: p.leader}, func() error { return p.leader.cmdExecute() })
 	if err != nil {
@@ -1256,6 +1273,17 @@ func (h *c08H) recovery() {
 	h.waitExecutions()
 	h.net.setDropBundles(false)
 	h.net.drain(10 * time.Second)
+	for _, nd := range h.all {
+		cr, fr := nd.raw()
+		_, e1 := vfdDecode(cr)
+		_, e2 := vfdDecode(fr)
+		if e1 != nil || e2 != nil {
+			_, cmdErr := nd.bolt.GetCurrent(h.c.BeaconID)
+			run.Violation("C08/not-recoverable/dkg-database-unreadable",
+				fmt.Sprintf("%s cannot read its own DKG records any more (current: %v, finished: %v); every command now answers: %v", nd.addr, e1, e2, cmdErr), h.info(nil))
+			return
+		}
+	}
 	h.abortAll()
 	h.net.quiesce(2 * time.Second)
 	for _, nd := range h.all {
@@ -1359,6 +1387,8 @@ func (h *c08H) recovery() {
 			return
 		}
 	}
+	h.net.resetLag()
+	h.net.maxLatNs.Store(0)
 	if err := h.step(c08Opt{kind: "cmd-execute", class: "recovery", actor: p.leader, target: p.leader}, func() error { return p.leader.cmdExecute() }); err != nil {
 		run.Violation("C08/not-recoverable/execute-of-recovery-proposal-refused", err.Error(), h.info(nil))
 		return
@@ -1368,6 +1398,14 @@ func (h *c08H) recovery() {
 		if r == "pending" {
 			run.Inconclusive(fmt.Sprintf("case %d: recovery DKG neither completed nor failed on %s within the watchdog", h.c.Index, a))
 			return
+		}
+	}
+	if lag, lat := h.net.lag(), time.Duration(h.net.maxLatNs.Load()); lag > 150*time.Millisecond || lat > c08Phase/2 {
+		for _, r := range out {
+			if r != "complete" {
+				run.Inconclusive(fmt.Sprintf("case %d: recovery DKG ended %v while the box was not keeping time (timer lag %v, slowest bundle %v)", h.c.Index, out, lag, lat))
+				return
+			}
 		}
 	}
 	for a, r := range out {
